@@ -157,9 +157,13 @@ def history_scenario(rng, name, report, n_events, n_planes, args=(), size=(40, 1
     # traffic keeps the aircraft alive: the feed thread repeats identification frames while the history runs
     keep = [fline(f.frame(gentrack.me_ident(4, 0, "TST%04d" % (f.icao & 0xFFF)))) for f in flights]
     script = [("send", b"".join(lines))]
-    n_keep = int((n_events * spacing + 6) / 0.5) if not expire else 2
-    for i in range(n_keep): script += [("sleep", 0.5), ("send", b"".join(keep) if keep else b"*00;\n")]
-    if not expire: script += [("sleep", 600)]
+    if expire:
+        # the aircraft are kept alive until the driver reaches the scripted expiry, then the feed falls silent
+        script += [("repeat_until_flag", b"".join(keep) if keep else b"*00;\n", 0.5), ("sleep", 600)]
+    else:
+        n_keep = int((n_events * spacing + 6) / 0.5)
+        for i in range(n_keep): script += [("sleep", 0.5), ("send", b"".join(keep) if keep else b"*00;\n")]
+        script += [("sleep", 600)]
     r, f = start(args, rows, cols, script)
     info = {"planes": n_planes, "with_position": det, "args": args, "size": size}
     tokens = ["rows:%d:%s" % (n_planes, det), "left:%d" % (11 if touch else 1)]
@@ -178,7 +182,7 @@ def history_scenario(rng, name, report, n_events, n_planes, args=(), size=(40, 1
                 rows, cols = rng.choice(resize_sizes); r.resize(rows, cols); r.pump(spacing); tokens += ["draw", "rs"]; sent.append("resize %dx%d" % (rows, cols)); continue
             if expire and i == n_events // 2:
                 # let every aircraft expire: the table shrinks to nothing under the selection
-                r.pump(4.5); tokens += ["draw", "rows:0:-"]; sent.append("expire"); continue
+                f.flag.set(); r.pump(4.5); tokens += ["draw", "rows:0:-"]; sent.append("expire"); continue
             tok, data = random_event(rng, rows, cols)
             # the buttons exist only while Map / Coverage are shown: tell the model what the last draw produced
             if touch and compare:
